@@ -1046,14 +1046,72 @@ func whitespaceAgreement(c *core.Ctx, p *load.Prog) {
 		return
 	}
 	treeSet := map[int]bool{}
+	var computedSkips []*ast.CallExpr
 	ast.Inspect(tree.Body, func(n ast.Node) bool {
 		if call, ok := n.(*ast.CallExpr); ok && isMethodCall(call, "tt", "skip") && len(call.Args) == 1 {
 			if v, ok := constInt(info, call.Args[0]); ok {
 				treeSet[v] = true
+			} else {
+				computedSkips = append(computedSkips, call)
 			}
 		}
 		return true
 	})
+	// tt.skip(b) with b ranging over a constant string or byte-slice literal
+	for _, call := range computedSkips {
+		resolved := false
+		if id, ok := ast.Unparen(call.Args[0]).(*ast.Ident); ok {
+			obj := info.ObjectOf(id)
+			ast.Inspect(tree.Body, func(n ast.Node) bool {
+				rs, ok := n.(*ast.RangeStmt)
+				if !ok || rs.Value == nil {
+					return true
+				}
+				vid, ok := rs.Value.(*ast.Ident)
+				if !ok || info.ObjectOf(vid) != obj {
+					return true
+				}
+				x := ast.Unparen(rs.X)
+				if conv, ok := x.(*ast.CallExpr); ok && len(conv.Args) == 1 && info.Types[conv.Fun].IsType() {
+					x = ast.Unparen(conv.Args[0])
+				}
+				if tv := info.Types[x]; tv.Value != nil && tv.Value.Kind() == constant.String {
+					for _, b := range []byte(constant.StringVal(tv.Value)) {
+						treeSet[int(b)] = true
+					}
+					resolved = true
+				} else if cl, ok := x.(*ast.CompositeLit); ok {
+					all := true
+					for _, el := range cl.Elts {
+						if v, ok := constInt(info, el); ok {
+							treeSet[v] = true
+						} else {
+							all = false
+						}
+					}
+					resolved = all
+				}
+				return true
+			})
+		}
+		if !resolved {
+			c.Undecide("newTokenTree: the byte handed to skip at %s is computed: which bytes the tokenizer treats as insignificant is not read off", p.Pos(call.Pos()))
+		}
+	}
+	// R4b: a skipped byte is a whole character. The tokenizer is driven by
+	// bytes, identifiers by runes: a byte >= 0x80 in the skip set is the lead
+	// or a continuation byte of a letter, which then loses it
+	{
+		var high []string
+		for b := range treeSet {
+			if b >= 0x80 {
+				high = append(high, fmt.Sprintf("0x%02X", b))
+			}
+		}
+		sort.Strings(high)
+		c.Check("R4b", "every byte the tokenizer skips is an ASCII character", p.Pos(tree.Pos()), len(high) == 0,
+			fmt.Sprintf("the skip set holds %v: bytes of multi-byte UTF-8 sequences. An identifier whose first letter is encoded with such a byte loses it (the letter is dropped or the definition refused), so the parse of a well-formed schema depends on which letters its names use", high))
+	}
 	// the bytes a clause skips: constants of a tagged switch's case list, or the
 	// constants a tagless switch's / an if's condition compares the byte with
 	// (b == ' ' || b == '\t'), in a clause that neither returns nor un-reads
